@@ -186,6 +186,22 @@ fn smix(b: &mut [u8], r: usize, N: usize, v: &mut [u32], x: &mut [u32], y: &mut 
     }
 }
 
+#[cfg(kestrel_verif)]
+pub(crate) fn verif_salsa_xor(tmp: &mut [u32], inn: &[u32], out: &mut [u32]) {
+    salsa_xor(tmp, inn, out)
+}
+
+#[cfg(kestrel_verif)]
+pub(crate) fn verif_block_mix(tmp: &mut [u32], inn: &[u32], out: &mut [u32], r: usize) {
+    block_mix(tmp, inn, out, r)
+}
+
+#[cfg(kestrel_verif)]
+#[allow(non_snake_case)]
+pub(crate) fn verif_smix(b: &mut [u8], r: usize, N: usize, v: &mut [u32], x: &mut [u32], y: &mut [u32]) {
+    smix(b, r, N, v, x, y)
+}
+
 pub(crate) fn scrypt(
     password: &[u8],
     salt: &[u8],
